@@ -503,18 +503,18 @@ fn error_code_rt<const L: usize>() {
     std::mem::forget(a);
 }
 macro_rules! error_code_inst {
-    ($($name:ident = $l:expr;)*) => {$(
+    ($($name:ident = $l:expr, $u:expr;)*) => {$(
         #[kani::proof]
-        #[kani::unwind(12)]
+        #[kani::unwind($u)]
         #[kani::stub(alloc::fmt::format, nofmt)]
         fn $name() { error_code_rt::<$l>(); }
     )*};
 }
 error_code_inst! {
-    attr_error_code_l0 = 0;
-    attr_error_code_l1 = 1;
-    attr_error_code_l3 = 3;
-    attr_error_code_l6 = 6;
+    attr_error_code_l0 = 0, 6;
+    attr_error_code_l1 = 1, 6;
+    attr_error_code_l3 = 3, 8;
+    attr_error_code_l6 = 6, 11;
 }
 
 // ADDRESS-ERROR-CODE (RFC 8656 §18.12): family (8) | rsvd (13) | class (3) | number (8) | reason
@@ -1030,9 +1030,9 @@ fn nonce_rt<const L: usize>() {
     std::mem::forget(a);
 }
 macro_rules! str_inst {
-    ($($name:ident = $f:ident($l:expr);)*) => {$(
+    ($($name:ident = $f:ident($l:expr), $u:expr;)*) => {$(
         #[kani::proof]
-        #[kani::unwind(12)]
+        #[kani::unwind($u)]
         #[kani::stub(alloc::fmt::format, nofmt)]
         #[kani::stub(crate::strings::opaque_string_prepapre, precis_ascii)]
         #[kani::stub(crate::strings::opaque_string_enforce, precis_ascii)]
@@ -1041,21 +1041,21 @@ macro_rules! str_inst {
     )*};
 }
 str_inst! {
-    attr_software_l0 = software_rt(0);
-    attr_software_l1 = software_rt(1);
-    attr_software_l3 = software_rt(3);
-    attr_software_l6 = software_rt(6);
-    attr_padding_l2 = padding_rt(2);
-    attr_padding_l5 = padding_rt(5);
-    attr_user_name_l1 = user_name_rt(1);
-    attr_user_name_l2 = user_name_rt(2);
-    attr_user_name_l4 = user_name_rt(4);
-    attr_realm_l1 = realm_rt(1);
-    attr_realm_l3 = realm_rt(3);
-    attr_realm_l5 = realm_rt(5);
-    attr_nonce_l1 = nonce_rt(1);
-    attr_nonce_l2 = nonce_rt(2);
-    attr_nonce_l4 = nonce_rt(4);
+    attr_software_l0 = software_rt(0), 6;
+    attr_software_l1 = software_rt(1), 6;
+    attr_software_l3 = software_rt(3), 8;
+    attr_software_l6 = software_rt(6), 11;
+    attr_padding_l2 = padding_rt(2), 7;
+    attr_padding_l5 = padding_rt(5), 10;
+    attr_user_name_l1 = user_name_rt(1), 6;
+    attr_user_name_l2 = user_name_rt(2), 7;
+    attr_user_name_l4 = user_name_rt(4), 9;
+    attr_realm_l1 = realm_rt(1), 6;
+    attr_realm_l3 = realm_rt(3), 8;
+    attr_realm_l5 = realm_rt(5), 10;
+    attr_nonce_l1 = nonce_rt(1), 6;
+    attr_nonce_l2 = nonce_rt(2), 7;
+    attr_nonce_l4 = nonce_rt(4), 9;
 }
 
 // the 508/509-byte limits as concrete-length witnesses (content 'a' * n: CBMC merely executes)
